@@ -167,7 +167,7 @@ const (
 )
 
 // values around the 32-bit range limits (as two's-complement 64-bit words), where the 32-bit accessors have to report overflow
-var edges32 = []int64{math.MinInt32 - 1, math.MinInt32, math.MinInt32 + 1, -1 << 32, -1<<32 - 1, -1<<32 + 1, -3000000000,
+var edges32 = []int64{math.MaxInt32, math.MaxInt32 - 1, math.MinInt32 - 1, math.MinInt32, math.MinInt32 + 1, -1 << 32, -1<<32 - 1, -1<<32 + 1, -3000000000,
 	math.MaxInt32 + 1, math.MaxUint32, math.MaxUint32 + 1, math.MaxUint32 - 1, math.MinInt64, math.MaxInt64, math.MinInt64 + 1}
 
 func rnd64(r *rand.Rand) uint64 {
@@ -1024,6 +1024,26 @@ func famAcc(iters int) {
 			msg = nil
 		}
 		def := genDef(rng, shapes, 0)
+		edgeIter := it%5 == 2
+		if edgeIter {
+			// every value around the 32-bit limits, in turn, as a single varint, a repeated varint and a packed run - with every accessor
+			k := (it / 5) % len(edges32)
+			e0, e1, e2 := uint64(edges32[k]), uint64(edges32[(k+1)%len(edges32)]), uint64(edges32[(k+5)%len(edges32)])
+			msg = nil
+			msg = protowire.AppendTag(msg, 1, protowire.VarintType)
+			msg = protowire.AppendVarint(msg, e0)
+			for _, v := range []uint64{e1, e0, e2} {
+				msg = protowire.AppendTag(msg, 2, protowire.VarintType)
+				msg = protowire.AppendVarint(msg, v)
+			}
+			var p []byte
+			for _, v := range []uint64{e2, e0} {
+				p = protowire.AppendVarint(p, v)
+			}
+			msg = protowire.AppendTag(msg, 3, protowire.BytesType)
+			msg = protowire.AppendBytes(msg, p)
+			def = lazyproto.NewDef(1, 2, 3)
+		}
 		w.NextGroup()
 		c.reset()
 		c.viaRes = rng.Intn(2) == 0
@@ -1044,7 +1064,7 @@ func famAcc(iters int) {
 		}
 		h := c.decodeObj(dec, def, msg, o.mode, o.name)
 		if h.live {
-			c.exercise(h, 0, rng.Intn(4) == 0)
+			c.exercise(h, 0, edgeIter || rng.Intn(4) == 0)
 			c.close(h)
 			if o.mode == 0 {
 				c.checkStable(h)
